@@ -136,13 +136,13 @@ Example C27_number_before_dot_refuted :
   x_roundtrip false false false [] (XCall 0 (XIdent 0 [102]) [XIdent 0 [115]; XLit 0 2 [53]] true) = RtRes RErr.
 Proof. cbv zeta. repeat split; vm_compute; reflexivity. Qed.
 
-(* string-result-starting-with-arrow (new): func() (<-chan int) is printed func() <-chan int;
-   parseFuncParameters does not take <- as the start of a result and parseExpr stops before it *)
-Example C27_result_arrow_refuted :
+(* a result type that starts with an arrow, as in func() (<-chan int) printed func() <-chan int: the
+   parser did not take the arrow as the start of a result (parseFuncParameters); repaired in the
+   implementation (the generated list gen_result_start has the arrow), so that the shape is printable *)
+Example C27_result_arrow_repaired :
   let e := XFunc 0 false [] [(None, Some (XChan 0 1 (XIdent 0 [105; 110; 116])))] false in
-  x_printable false false false None e = false /\
-  x_roundtrip false false false [] e =
-    RtRes (ROk (Some (XFunc 0 false [] [] false), [KSym [60; 45]; KKw WChan; KIdent [105; 110; 116]])).
+  x_printable false false false None e = true /\
+  x_roundtrip false false false [] e = RtRes (ROk (Some e, [])).
 Proof. cbv zeta. split; vm_compute; reflexivity. Qed.
 
 (* string-call-of-type-ending-in-func (new): ([]func())(f) is printed []func()(f) and read as
